@@ -21,8 +21,9 @@ tie (T-diff): random hierarchies with 0 or 1 injected defect (two drivers of a b
   loopback at the parent, ...), each elaborated under ~10 statement orders / side flips.  The exception CLASS of
   top.elaborate() (or none) is compared, inside Coq, with
      bit_level_defect   (the property: drivers per bit + port table)      -> disagreement = VIOLATION of C09
-     elab_model         (faithful structural model incl. known deviations) -> disagreement = the model no longer mirrors
-                                                                              the implementation (reported as violation too)
+     elab_model         (faithful structural model incl. known deviations) -> used to classify a disagreement: "the
+                                                                              implementation behaves like its structural model";
+                                                                              recorded in the evidence, never a violation by itself
   and must be the same for every order.
 partial: error families are compared by exception class only; the order in which two simultaneous defects are reported is
   modelled as the order of the checks in elaborate() and only single injected defects are generated; the iterative writer
@@ -513,32 +514,34 @@ def run(ctx):
       cases_bit.append(f'({term}, {code}%nat)'); cases_faith.append(cases_bit[-1])
       meta.append((d, inj, src, r, v, stable))
     if j < 3: ctx.sample({'design': d.name, 'injection': inj, 'source_tail': outs[0][1][-600:], 'elaborate': FAMNAME[c0]})
-  def report(bad, which, cases):
-    if not bad: return
-    verdicts = ctx.coq_eval('why_' + which, IMPORTS, DEFS, [f'code ({"bit_level_defect" if which == "bit" else "elab_model"} (fst {cases[i]}))' for i in bad[:40]])
-    wf = ctx.coq_eval('wf_' + which, IMPORTS, DEFS, [f'wf_design_addrs (fst {cases[i]})' for i in bad[:40]])
-    for n, i in enumerate(bad[:40]):
+  bad_bit = ctx.coq_bad_indices('bit', IMPORTS, DEFS, 'ctype', cases_bit, 'wf_design_addrs (fst c) && Nat.eqb (code (bit_level_defect (fst c))) (snd c)', shard=40)
+  bad_f = ctx.coq_bad_indices('faith', IMPORTS, DEFS, 'ctype', cases_faith, 'wf_design_addrs (fst c) && Nat.eqb (code (elab_model (fst c))) (snd c)', shard=40)
+  fset = set(bad_f)
+  if bad_bit:
+    sel = bad_bit[:60]
+    verdicts = ctx.coq_eval('why_bit', IMPORTS, DEFS, [f'code (bit_level_defect (fst {cases_bit[i]}))' for i in sel])
+    wf = ctx.coq_eval('wf_bit', IMPORTS, DEFS, [f'wf_design_addrs (fst {cases_bit[i]})' for i in sel])
+    for n, i in enumerate(sel):
       d, inj, src, r, v, stable = meta[i]
       try: mv = int(verdicts[n].split('%')[0])
       except Exception: mv = -1
       obs = 0 if r[0] == 'ok' else FAMILY.get(r[1], 99)
       if wf[n].strip() != 'true':
         ctx.violation(f'C09:harness-wf:{d.name}', f'address universe of {d.name} is not well-formed ({wf[n]})', {'design_source': src}, found_input=False); continue
-      if which == 'bit':
-        key = pattern_key(d, obs, mv) or f'C09:verdict:{ec.dhash(src)}'
-        what = (f'design {d.name} (injection "{inj}", order {v}): bit-level decision = {FAMNAME.get(mv, mv)} but top.elaborate() -> '
-                f'{FAMNAME[obs]}' + (f' [{r[1]}: {r[2][:160]}]' if obs else ''))
-      else:
-        if sameblk_parent_child(d) or aug_assign(d): continue      # nondeterministic / crashing paths are not part of the faithful model
-        key = f'C09:model-drift:{ec.dhash(src)}'
-        what = (f'design {d.name} (injection "{inj}", order {v}): the faithful model of the elaboration checks says {FAMNAME.get(mv, mv)} but '
-                f'top.elaborate() -> {FAMNAME[obs]}' + (f' [{r[1]}: {r[2][:160]}]' if obs else ''))
+      key = pattern_key(d, obs, mv) or f'C09:verdict:{ec.dhash(src)}'
+      what = (f'design {d.name} (injection "{inj}", order {v}): bit-level decision = {FAMNAME.get(mv, mv)} but top.elaborate() -> '
+              f'{FAMNAME[obs]}' + (f' [{r[1]}: {r[2][:160]}]' if obs else '')
+              + (' (the faithful structural model of the elaboration checks reproduces the implementation\'s answer)' if i not in fset else ''))
       ctx.violation(key, what, {'design_source': src, 'injection': inj, 'model_verdict': FAMNAME.get(mv, mv), 'observed': FAMNAME[obs],
-                                'exception': None if r[0] == 'ok' else [r[1], r[2]], 'coq_design': cases[i][:4000]})
-  bad_bit = ctx.coq_bad_indices('bit', IMPORTS, DEFS, 'ctype', cases_bit, 'wf_design_addrs (fst c) && Nat.eqb (code (bit_level_defect (fst c))) (snd c)', shard=40)
-  report(bad_bit, 'bit', cases_bit)
-  bad_f = ctx.coq_bad_indices('faith', IMPORTS, DEFS, 'ctype', cases_faith, 'wf_design_addrs (fst c) && Nat.eqb (code (elab_model (fst c))) (snd c)', shard=40)
-  report(bad_f, 'faith', cases_faith)
+                                'exception': None if r[0] == 'ok' else [r[1], r[2]], 'faithful_model_agrees_with_implementation': i not in fset,
+                                'coq_design': cases_bit[i][:4000]})
+  # the faithful model is a validation aid: where the implementation meets the bit-level decision but not the faithful model,
+  # one of the modelled deviations has been repaired in the implementation (not a violation of C09)
+  bset = set(bad_bit)
+  drift = [i for i in bad_f if i not in bset]
+  if drift:
+    ctx.note(f'{len(drift)} cases where elaboration agrees with bit_level_defect but not with the faithful model elab_model '
+             f'(a modelled deviation is no longer present in the implementation), e.g. {meta[drift[0]][0].name} injection "{meta[drift[0]][1]}"')
   ctx.extra.update({'designs': ndes, 'injections_applied': applied, 'model_cases': len(cases_bit),
                     'disagree_bitlevel': len(bad_bit), 'disagree_faithful': len(bad_f)})
 
